@@ -38,7 +38,36 @@ def teval(t, env, hooks=None):
             v = num_value(x)
             if v is not None:
                 return int(v) if v.denominator == 1 else float(v)
-            return UNKNOWN
+            total = Fraction(0)
+            for m, c in x[1]:
+                term = Fraction(c)
+                for a, p in m:
+                    av = rec(a)
+                    if av is UNKNOWN or isinstance(av, (str, type(None))) or not isinstance(av, (int, float, bool, Fraction)):
+                        return UNKNOWN
+                    if p < 0 and av == 0:
+                        return UNKNOWN
+                    if isinstance(av, float) and (av != av or av in (float("inf"), float("-inf"))):
+                        term = float(term) * (av ** p)
+                    elif isinstance(term, float):
+                        term = term * (float(av) ** p)
+                    else:
+                        term *= Fraction(av) ** p
+                total = total + term
+            if isinstance(total, float):
+                return total
+            return int(total) if total.denominator == 1 else total
+        if k in ("tuple", "list"):
+            vals = [rec(a) for a in x[1]]
+            return UNKNOWN if any(v is UNKNOWN for v in vals) else tuple(vals)
+        if k == "sub":
+            b, i = rec(x[1]), rec(x[2])
+            if b is UNKNOWN or i is UNKNOWN:
+                return UNKNOWN
+            try:
+                return b[i]
+            except Exception:
+                return UNKNOWN
         if k == "ite":
             c = rec(x[1])
             if c is UNKNOWN:
@@ -74,6 +103,20 @@ def teval(t, env, hooks=None):
                         return UNKNOWN if unk else v
                     res = v
                 return UNKNOWN if unk else res
+            if op in ("bitor", "bitand", "bitxor", "lshift", "rshift", "mod", "floordiv", "pow"):
+                vals = [rec(a) for a in args]
+                if any(v is UNKNOWN or not isinstance(v, (int, bool)) for v in vals):
+                    return UNKNOWN
+                vals = [int(v) for v in vals]
+                try:
+                    r = vals[0]
+                    for v in vals[1:]:
+                        r = {"bitor": lambda a, b: a | b, "bitand": lambda a, b: a & b, "bitxor": lambda a, b: a ^ b,
+                             "lshift": lambda a, b: a << b, "rshift": lambda a, b: a >> b, "mod": lambda a, b: a % b,
+                             "floordiv": lambda a, b: a // b, "pow": lambda a, b: a ** b}[op](r, v)
+                    return r
+                except Exception:
+                    return UNKNOWN
             if op.startswith("cmp:"):
                 a, b = rec(args[0]), rec(args[1])
                 if a is UNKNOWN or b is UNKNOWN:
@@ -89,3 +132,39 @@ def teval(t, env, hooks=None):
         return UNKNOWN
 
     return rec(t)
+
+
+def agree(got, want, domains, hooks=None, limit=200000):
+    """Do two terms denote the same function of the atoms in *domains* ({atom term: list of values})?
+    Exhaustive evaluation over the product of the domains.  -> ('equal', n) | ('differ', env, got, want) | ('unknown', term)"""
+    import itertools
+    atoms = list(domains)
+    n = 1
+    for a in atoms:
+        n *= len(domains[a])
+    if n > limit:
+        return ("unknown", "domain too large (%d)" % n)
+    count = 0
+    for vals in itertools.product(*[domains[a] for a in atoms]):
+        env = dict(zip(atoms, vals))
+        g = teval(got, env, hooks)
+        w = teval(want, env, hooks)
+        if g is UNKNOWN or w is UNKNOWN:
+            return ("unknown", got if g is UNKNOWN else want)
+        if isinstance(g, tuple) and isinstance(w, tuple):
+            same = len(g) == len(w) and all(_same(a, b) for a, b in zip(g, w))
+        else:
+            same = _same(g, w)
+        if not same:
+            return ("differ", env, g, w)
+        count += 1
+    return ("equal", count)
+
+
+def _same(a, b):
+    if isinstance(a, bool) or isinstance(b, bool):
+        return bool(a) == bool(b)
+    try:
+        return a == b
+    except Exception:
+        return False
